@@ -123,6 +123,21 @@ def norm_scale_free(rule, fname, out, hom, where):
             xz, core, m = found
             okm = isinstance(core, T.Term) and ((core.op == "np.amax" and isinstance(core.args[0], T.Term) and core.args[0].op == "np.abs" and nf.norm(core.args[0].args[0]) == xz)
                                                 or (core.op == "linalg.vector_norm" and nf.norm(core.args[0]) == xz and str(core.kwargs.get("order")) in ("inf", "np.inf")))
+            if m is not core and isinstance(m, T.Term) and m.op in ("np.where", "ite"):
+                # the zero guard where(c, r, 1): r must be the divisor whenever r > 0 -- otherwise nothing is normalised where it matters.  Decided by refinement:
+                # under r > 0 the negation of c is infeasible, and the other arm is a positive constant.
+                c, a1, a2 = m.args
+                bb = B.Bounds(B.Env())
+                bb.env.assume_pos(core) if hasattr(bb.env, "assume_pos") else None
+                sel_ok = None
+                try:
+                    pos = [e_ for e_ in B.refine_dnf(bb, T.mk("gt", (core, 0.0)), True) if not e_.infeasible]
+                    sel_ok = bool(pos) and all(all(e2.infeasible for e2 in B.refine_dnf(bb.sub(e_), c, False)) for e_ in pos) and a1 is core
+                except Exception:  # noqa: BLE001
+                    sel_ok = None
+                other_ok = isinstance(a2, (int, float)) and not isinstance(a2, bool) and a2 > 0
+                rule.require((sel_ok and other_ok) if sel_ok is not None else None, f"{fname} zero guard of the normaliser of {nf.show(xz)[:60]}", "where(r > 0, r, positive constant): r itself is the divisor whenever it is positive",
+                             f"the divisor is {T.show(m, 4)}: for a positive reduction the guard does not select it (or the other arm is not a positive constant), so badly scaled vectors are not normalised at all", where_of(n, where))
             rule.require(okm, f"{fname} normaliser of {nf.show(xz)[:60]}", "divided by its largest magnitude max|x_i|: every entry of the normalised vector lies in [-1, 1]",
                          f"the vector is divided by {T.show(m, 4)}, which does not bound the magnitude of every entry (a large negative entry is not seen by a signed maximum): the squares can overflow or the quotient can be 0/inf", where_of(n, where))
 
